@@ -771,6 +771,11 @@ impl<'a> Matcher<'a> {
         }
     }
     fn literal(&mut self, type_id: u32) -> M {
+        if self.left() == 0 {
+            // no word at all for the literal: a left-to-right reading misses the operand
+            // before it can look at the type
+            return M::Fault(Fault::Missing);
+        }
         match self.tc.lit_words(type_id) {
             LitW::Unsupported => M::Fault(Fault::Undecodable),
             LitW::Words(n) => {
@@ -1096,7 +1101,7 @@ pub fn ref_parse(bytes: &[u8]) -> RParse {
                     // also run into the end of the stream
                     classes.push(Fault::Missing);
                     classes.push(Fault::Surplus);
-                    if m.string_ran_out {
+                    {
                         // the string may end in the trailing partial word (1-3 stray bytes)
                         // and then be found undecodable (invalid UTF-8)
                         classes.push(Fault::Undecodable);
@@ -1107,6 +1112,10 @@ pub fn ref_parse(bytes: &[u8]) -> RParse {
                 if truncated {
                     classes.push(Fault::Missing);
                     classes.push(Fault::Surplus);
+                    // the declared extent promises words the stream does not hold: the next
+                    // operand may be found undecodable before the missing word is noticed
+                    // (unsupported literal type, string ending in 1-3 stray bytes)
+                    classes.push(Fault::Undecodable);
                 } else if m.pos < opwords.len() {
                     classes.push(Fault::Surplus);
                 }
